@@ -1,6 +1,7 @@
 package sim
 
 import (
+	"sync"
 	"errors"
 	"fmt"
 	"io"
@@ -43,6 +44,11 @@ type SimReader struct {
 	Bounds   []int // offsets at which a Read result ended (the cuts that actually happened)
 	Hung     bool
 	FaultHit bool
+
+	// set by Own: the reader knows the goroutine of the call it is handed to (foreign.go)
+	owner  int64
+	opDone chan struct{}
+	mu     sync.Mutex
 }
 
 // FailErrors are the error values an injected reader failure may carry: what a front-end does must not depend
@@ -56,8 +62,25 @@ func NewSimReader(data []byte, s *Schedule) *SimReader {
 }
 
 func (r *SimReader) Read(p []byte) (int, error) {
+	if r.owner != 0 {
+		if goid() != r.owner {
+			return r.foreignRead(p)
+		}
+		r.mu.Lock()
+		n, err := r.read(p, false)
+		r.mu.Unlock()
+		afterRead()
+		return n, err
+	}
+	return r.read(p, false)
+}
+
+func (r *SimReader) read(p []byte, foreign bool) (int, error) {
 	r.Calls++
 	if r.Calls > r.Budget {
+		if foreign { // (a panic on a goroutine of the code under test would end the process)
+			return 0, io.EOF
+		}
 		r.Hung = true
 		panic(hangPanic{})
 	}
@@ -222,11 +245,30 @@ type SimWriter struct {
 	Short    bool // the failing call accepts the first half of its bytes and reports that count with the error
 	Full     bool // the failing call accepts all its bytes and reports the full count together with the error
 	FaultHit bool
+
+	// set by Own (foreign.go)
+	owner  int64
+	opDone chan struct{}
+	mu     sync.Mutex
 }
 
 func NewSimWriter(failCall int) *SimWriter { return &SimWriter{FailCall: failCall} }
 
 func (w *SimWriter) Write(p []byte) (int, error) {
+	if w.owner != 0 {
+		if goid() != w.owner {
+			return w.foreignWrite(p)
+		}
+		w.mu.Lock()
+		n, err := w.write(p)
+		w.mu.Unlock()
+		afterRead()
+		return n, err
+	}
+	return w.write(p)
+}
+
+func (w *SimWriter) write(p []byte) (int, error) {
 	k := len(w.Calls)
 	w.Calls = append(w.Calls, WriteRec{Off: len(w.Buf), Len: len(p)})
 	if w.FailCall >= 0 && (k == w.FailCall || (w.Sticky && k > w.FailCall)) {
